@@ -2,7 +2,8 @@
 """Syntactic mutation sweep over one source file of pitt-rnel/pyrtma, judged by whole checks (`./check Cnn`).
 
     tools/mutate_check.py <worktree> <relative file> --checks C09[,C10...] [--only f1,f2] [--skip f1,f2]
-                          [--limit N] [--lines l1,l2] [--from N] [--every K [--offset O]] [--out file.jsonl] [--timeout S] [--dry]
+                          [--limit N] [--from N] [--lines l1,l2] [--every K [--offset O]] [--out file.jsonl] [--timeout S]
+                          [--list | --dry]
 
 The worktree is a scratch `git worktree` of /repo (never /repo itself).  For every mutant (comparison / boolean operator
 swaps, 0<->1 constants, deleted simple statements, negated conditions, swapped `continue`/`break`, +/- swaps) of the file
@@ -23,6 +24,7 @@ checks = arg("--checks").split(",")
 only = set(arg("--only").split(",")) if arg("--only") else None
 skip = set(arg("--skip").split(",")) if arg("--skip") else set()
 limit = int(arg("--limit", 10 ** 9))
+first = int(arg("--from", 1))        # resume: skip the mutants numbered below this (numbering unchanged)
 lines_only = set(int(x) for x in arg("--lines").split(",")) if arg("--lines") else None
 timeout = int(arg("--timeout", 1500))
 out = open(arg("--out"), "a") if arg("--out") else sys.stdout
@@ -30,14 +32,13 @@ assert os.path.realpath(wt) != "/repo"
 path = os.path.join(wt, rel)
 src = open(path).read()
 tree = ast.parse(src)
-# scratch directory next to the output file (a shared /tmp is swept by other people's clean-ups)
-_sdir = os.path.dirname(os.path.abspath(arg("--out"))) if arg("--out") else None
-scratch = tempfile.mkdtemp(prefix="mutchk_", dir=_sdir)
-start_from = int(arg("--from", 1))
+# scratch (evidence / replays of the mutant runs) next to the output file, not in /tmp's root where cleaners roam
+scratch = tempfile.mkdtemp(prefix="mutchk_", dir=os.path.dirname(os.path.abspath(arg("--out"))) if arg("--out") else None)
+HERE = os.path.dirname(os.path.dirname(os.path.abspath(__file__)))  # the clone this tool lives in (never a fixed /verif)
+VERIF = os.environ.get("VERIF_ROOT") or HERE
+start_from = first
 every, offset = int(arg("--every", 1)), int(arg("--offset", 0))      # systematic sample: mutants with n % every == offset
-# the checks of the clone this tool lives in (never another clone: they would share its Lean build directory)
-VERIF = os.environ.get("VERIF_ROOT") or os.path.dirname(os.path.dirname(os.path.abspath(__file__)))
-dry = "--dry" in sys.argv
+dry = "--dry" in sys.argv or "--list" in sys.argv
 
 CMP = {ast.Lt: ast.LtE, ast.LtE: ast.Lt, ast.Gt: ast.GtE, ast.GtE: ast.Gt, ast.Eq: ast.NotEq, ast.NotEq: ast.Eq,
        ast.In: ast.NotIn, ast.NotIn: ast.In, ast.Is: ast.IsNot, ast.IsNot: ast.Is}
@@ -150,6 +151,9 @@ def run_check(prop):
             p.communicate()
     r = {"rc": rc, "s": round(time.time() - t0)}
     vl = [l for l in text.splitlines() if l.startswith("VIOLATION")]
+    if rc == 1 and not vl:
+        rc = 2      # exit 1 without a VIOLATION line is an uncaught exception of the framework, not a verdict
+    r["rc"] = rc
     if vl:
         r["nofail"] = vl[0].endswith("no-failing-input-found")
         try:
@@ -188,9 +192,9 @@ try:
         except SyntaxError:
             continue
         n += 1
-        if n < start_from or n % every != offset % every:
+        if n < first or n % every != offset % every:
             continue
-        if dry:
+        if "--list" in sys.argv:        # dry run: what would be applied (no check runs)
             print(json.dumps({"n": n, "kind": kind, "func": f, "line": getattr(node, "lineno", 0), "before": before,
                               "after": after}), file=out, flush=True)
             continue
